@@ -475,4 +475,283 @@ theorem minv_notify (cfg : Cfg) (st st' : State) (m : Mon) (hg : GInv cfg st) (h
           rw [o1] at hc; rw [o2]
           exact hrest s e hc hl hls
 
+theorem minv_wopen (cfg : Cfg) (st st' : State) (s : Nat) (m : Mon) (h : MInv st m)
+    (hs : step cfg st (.wopen s) = some st') : MInv st' m := by
+  simp only [step] at hs
+  split at hs
+  · simp only [Option.some.injEq] at hs; subst hs
+    exact minv_upd st _ m s _ h rfl rfl rfl rfl rfl rfl (fun w hv => vinv_congr (st.srcs s) _ _ _ _ rfl rfl rfl rfl hv)
+  · cases hs
+
+theorem minv_wcopy (cfg : Cfg) (st st' : State) (s k : Nat) (m : Mon) (h : MInv st m)
+    (hs : step cfg st (.wcopy s k) = some st') : MInv st' m := by
+  simp only [step] at hs
+  split at hs
+  · split at hs
+    · cases hs
+    · simp only [Option.some.injEq] at hs; subst hs
+      exact minv_upd st _ m s _ h rfl rfl rfl rfl rfl rfl (fun w hv => vinv_congr (st.srcs s) _ _ _ _ rfl rfl rfl rfl hv)
+  · cases hs
+
+theorem minv_wtimeout (cfg : Cfg) (st st' : State) (s : Nat) (m : Mon) (h : MInv st m)
+    (hs : step cfg st (.wtimeout s) = some st') : MInv st' m := by
+  simp only [step] at hs
+  split at hs
+  · simp only [Option.some.injEq] at hs; subst hs
+    exact minv_upd st _ m s _ h rfl rfl rfl rfl rfl rfl (fun w hv => vinv_congr (st.srcs s) _ _ _ _ rfl rfl rfl rfl hv)
+  · simp only [Option.some.injEq] at hs; subst hs
+    exact minv_upd st _ m s _ h rfl rfl rfl rfl rfl rfl (fun w hv => vinv_congr (st.srcs s) _ _ _ _ rfl rfl rfl rfl hv)
+  · cases hs
+
+theorem minv_wdone (cfg : Cfg) (st st' : State) (s : Nat) (m : Mon) (h : MInv st m)
+    (hs : step cfg st (.wdone s) = some st') : MInv st' m := by
+  simp only [step] at hs
+  split at hs
+  · rename_i d hwk hd
+    simp only [Option.some.injEq] at hs; subst hs
+    have hD : ∀ w, VInv (st.srcs s) (m.nextExp s) w st.down →
+        DV (st.srcs s).createdAt (m.nextExp s) st.down { d with charged := false } := by
+      intro w hv
+      have := hv.v3 d hd
+      exact ⟨this.start, this.lk, this.dis, this.stale, this.dn⟩
+    refine minv_upd st _ m s _ h rfl rfl rfl rfl rfl ?_ ?_
+    · split
+      · exact startWorker_listens _ _ _
+      · rfl
+    · intro w hv
+      split
+      · exact vinv_startWorker _ _ _ _ _ _ hv.v0 hv.v1 (hD w hv) hv.v4
+      · refine ⟨hv.v0, hv.v1, ?_, ?_, hv.v4⟩
+        · intro hn; simp at hn
+        · intro d' hd'
+          simp only [Option.some.injEq] at hd'; subst hd'
+          exact hD w hv
+  · cases hs
+
+theorem minv_wsave (cfg : Cfg) (st st' : State) (s : Nat) (m : Mon) (hg : GInv cfg st) (h : MInv st m)
+    (hs : step cfg st (.wsave s) = some st') : MInv st' m := by
+  simp only [step] at hs
+  split at hs
+  · rename_i c d hwk hd
+    simp only [Option.some.injEq] at hs; subst hs
+    have hpc : d.pos ≤ c := by
+      have := ((hg.1 s).2 d hd).2.1
+      simpa [curOf, hwk] using this
+    intro s' hc hl hls
+    dsimp only at hl hls ⊢
+    by_cases e : s' = s
+    · subst e
+      simp only [upd_self] at hls ⊢
+      obtain ⟨a0, a1, a2, a3, a4⟩ := h s' hc hl hls
+      have hD := a3 d hd
+      have hD' : DV (st.srcs s').createdAt (m.nextExp s') st.down { d with pos := c } := by
+        refine ⟨hD.start, hD.lk, ?_, hD.stale, ?_⟩
+        · rcases hD.dis with h1 | h1
+          · exact Or.inl h1
+          · exact Or.inr (Nat.le_trans h1 hpc)
+        · intro hdn; exact Nat.le_trans (hD.dn hdn) hpc
+      refine ⟨a0, a1, ?_, ?_, ?_⟩
+      · intro hn; simp at hn
+      · intro d' hd'
+        simp only [Option.some.injEq] at hd'; subst hd'
+        exact hD'
+      · intro sv hsv
+        simp only [Option.some.injEq] at hsv; subst hsv
+        exact hD'.lk
+    · rw [upd_ne _ _ _ _ e] at hls ⊢
+      obtain ⟨a0, a1, a2, a3, a4⟩ := h s' hc hl hls
+      refine ⟨a0, a1, a2, a3, ?_⟩
+      intro sv hsv
+      exact (a3 sv hsv).lk
+  · cases hs
+
+theorem minv_create (cfg : Cfg) (st st' : State) (m : Mon) (hg : GInv cfg st) (hp : PInv st)
+    (hs : step cfg st .create = some st') : MInv st' (monStep st .create m) := by
+  simp only [step] at hs
+  split at hs
+  · cases hs
+  · rename_i hgd
+    simp only [Bool.or_eq_true, bne_iff_ne, ne_eq, not_or, Bool.not_eq_true, Decidable.not_not] at hgd
+    simp only [Option.some.injEq] at hs; subst hs
+    intro s hc hl hls
+    simp only [monStep] at hc ⊢
+    have hd : (st.srcs s).desc = none := (hp.2 hgd.2).2 s
+    have hsv : (st.srcs s).saved = none := ((hg.1 s).1 hd).2.2
+    refine ⟨Nat.le_refl _, ?_, fun _ => rfl, ?_, ?_⟩
+    · rw [wsum_noneOf s _ hc]; rfl
+    · intro d hd'; rw [hd] at hd'; cases hd'
+    · intro sv hsv'; rw [hsv] at hsv'; cases hsv'
+
+theorem minv_halt (cfg : Cfg) (st st' : State) (m : Mon) (h : MInv st m)
+    (hs : step cfg st .halt = some st') : MInv st' (monStep st .halt m) := by
+  simp only [step] at hs
+  split at hs
+  · simp only [Option.some.injEq] at hs; subst hs
+    intro s hc hl hls
+    simp only [monStep] at hc ⊢
+    simp only [Bool.and_eq_true] at hc
+    obtain ⟨⟨hc1, hc2⟩, hc3⟩ := hc
+    obtain ⟨a0, a1, a2, a3, a4⟩ := h s hc1 hl hls
+    rw [wsum_noneOf s _ hc2] at a1
+    refine ⟨a0, a1, a2, ?_, a4⟩
+    intro d hd
+    have hD := a3 d hd
+    have hge : ¬ d.pos < d.lastKnown := by
+      simp only [haltOk] at hc3; rw [hd] at hc3
+      simpa using hc3
+    refine ⟨hD.start, hD.lk, hD.dis, hD.stale, ?_⟩
+    intro _
+    rcases hD.dis with h1 | h1
+    · omega
+    · exact h1
+  · cases hs
+
+theorem minv_restart (cfg : Cfg) (st st' : State) (m : Mon) (hg : GInv cfg st) (hp : PInv st) (h : MInv st m)
+    (hs : step cfg st .restart = some st') : MInv st' m := by
+  have hpipe := restart_pipe cfg st st' hp hs
+  simp only [step] at hs
+  split at hs
+  · rename_i hdn
+    simp only [Option.some.injEq] at hs; subst hs
+    intro s hc hl hls
+    rw [hpipe] at hl
+    obtain ⟨a0, a1, a2, a3, a4⟩ := h s hc hl hls
+    rw [hdn] at a3
+    have hwk := hg.2.2.2 hdn s
+    refine ⟨a0, a1, ?_, ?_, a4⟩
+    · intro hn
+      cases hd : (st.srcs s).desc with
+      | none => exact a2 hd
+      | some d =>
+        have hD := a3 d hd
+        cases hsv : (st.srcs s).saved with
+        | none =>
+          have hps := ((hg.1 s).2 d hd).2.2.2.2.2.2.2 hsv
+          have h1 := hD.dn rfl
+          have h2 := hD.start
+          change (st.srcs s).createdAt ≤ m.nextExp s at a0
+          change m.nextExp s = (st.srcs s).createdAt
+          omega
+        | some sv => simp [hsv] at hn
+    · intro d' hd'
+      cases hsv : (st.srcs s).saved with
+      | none => simp [hsv] at hd'
+      | some sv =>
+        simp only [hsv, Option.map_some, Option.some.injEq] at hd'; subst hd'
+        cases hd : (st.srcs s).desc with
+        | none => have := ((hg.1 s).1 hd).2.2; rw [hsv] at this; cases this
+        | some d =>
+          have hD := a3 d hd
+          obtain ⟨c1, c2⟩ := ((hg.1 s).2 d hd).2.2.2.2.2.2.1 sv hsv
+          have h1 := hD.dn rfl
+          have h4 := a4 sv hsv
+          refine ⟨by simp only [c2]; exact hD.start, h4, Or.inr (by simp only [c1]; exact h1), ?_, by intro x; cases x⟩
+          simp only [decide_eq_false_iff_not]; omega
+  · cases hs
+
+theorem step_minv (cfg : Cfg) (st st' : State) (l : Label) (m : Mon) (hg : GInv cfg st) (hp : PInv st) (h : MInv st m)
+    (hs : step cfg st l = some st') : MInv st' (monStep st l m) := by
+  cases l with
+  | write s b => exact minv_write cfg st st' s b m h hs
+  | enqueue i => exact minv_enqueue cfg st st' i m h hs
+  | notify => exact minv_notify cfg st st' m hg h hs
+  | wopen s => exact minv_wopen cfg st st' s m h hs
+  | wcopy s k => exact minv_wcopy cfg st st' s k m h hs
+  | wsave s => exact minv_wsave cfg st st' s m hg h hs
+  | wtimeout s => exact minv_wtimeout cfg st st' s m h hs
+  | wdone s => exact minv_wdone cfg st st' s m h hs
+  | create => exact minv_create cfg st st' m hg hp hs
+  | delete =>
+    simp only [step] at hs
+    split at hs
+    · cases hs
+    · simp only [Option.some.injEq] at hs; subst hs
+      intro s _ hl; cases hl
+  | shutdown =>
+    simp only [step] at hs
+    split at hs
+    · cases hs
+    · simp only [Option.some.injEq] at hs; subst hs
+      exact h
+  | halt => exact minv_halt cfg st st' m h hs
+  | restart => exact minv_restart cfg st st' m hg hp h hs
+
+/-- everything that is carried along a run -/
+structure AllInv (cfg : Cfg) (st : State) (m : Mon) : Prop where
+  g : GInv cfg st
+  ns : NS cfg st
+  p : PInv st
+  v : MInv st m
+
+theorem runM_inv (cfg : Cfg) (hC : cfg.saveOnCreate = true) (hD : cfg.saveOnDelete = true) (hre : cfg.rearm = true)
+    (x : State × Mon) (ls : List Label) (h : AllInv cfg x.1 x.2) :
+    AllInv cfg (runM cfg x ls).1 (runM cfg x ls).2 := by
+  induction ls generalizing x with
+  | nil => exact h
+  | cons l ls ih =>
+    simp only [runM]
+    cases hs : step cfg x.1 l with
+    | none => exact ih x h
+    | some st' =>
+      exact ih (st', monStep x.1 l x.2)
+        ⟨step_ginv cfg _ _ l h.g hs, step_ns cfg hre _ _ l h.g h.ns hs, step_pinv cfg hC hD _ _ l h.g h.p hs,
+          step_minv cfg _ _ l _ h.g h.p h.v hs⟩
+
+theorem allinv_init (cfg : Cfg) (n : Nat) (l : Nat → Bool) (p : Nat → Bytes) (f : Ev → Bool) (o : Bool) :
+    AllInv cfg (init n l p f o) mon0 :=
+  ⟨ginv_init cfg n l p f o, by intro s d h; simp [init] at h, pinv_init n l p f o, minv_init n l p f o⟩
+
+/-- **the specification from a clean schedule**: in a quiescent state of a running service with the pipe alive, a
+listening source whose schedule was clean has exactly the events written after the creation that pass the filter, once, in
+stored order, provenance appended — in the pipe partition. No hypothesis about the descriptor. -/
+theorem spec_of_clean (cfg : Cfg) (hC : cfg.saveOnCreate = true) (hD : cfg.saveOnDelete = true) (hre : cfg.rearm = true)
+    (hf : cfg.applyFilter = true)
+    (n : Nat) (l : Nat → Bool) (p : Nat → Bytes) (f : Ev → Bool) (o : Bool) (ls : List Label) (s : Nat) :
+    let r := runM cfg (init n l p f o, mon0) ls
+    quiescent r.1 = true → r.1.closed = false → r.1.down = false → r.1.pipe = .live → s < r.1.n →
+    (r.1.srcs s).listens = true → r.2.clean s = true →
+    proj s r.1.dest = specProj r.1 s := by
+  intro r hq hcl hdn hl hsn hls hc
+  obtain ⟨hg, hns, _, hv⟩ := runM_inv cfg hC hD hre (init n l p f o, mon0) ls (allinv_init cfg n l p f o)
+  change GInv cfg r.1 at hg
+  change NS cfg r.1 at hns
+  change MInv r.1 r.2 at hv
+  generalize r.1 = st at *
+  generalize r.2 = m at *
+  simp only [quiescent, Bool.and_eq_true, List.isEmpty_iff] at hq
+  obtain ⟨⟨hpe, hch⟩, hidle⟩ := hq
+  obtain ⟨a0, a1, a2, a3, a4⟩ := hv s hc hl hls
+  rw [hch, hpe] at a1
+  have a1' : m.nextExp s = (st.srcs s).log.length := by simpa [wsum] using a1
+  have hwk : (st.srcs s).wk = .none := allIdle_spec st hidle s hsn
+  unfold specProj
+  simp only [hls, if_true]
+  cases hd : (st.srcs s).desc with
+  | none =>
+    have hca := a2 hd
+    have hP := ((hg.1 s).1 hd).1
+    rw [hP]
+    have : (st.srcs s).log.drop (st.srcs s).createdAt = [] := by
+      apply List.drop_eq_nil_of_le; omega
+    rw [this]; rfl
+  | some d =>
+    have hD' := a3 d hd
+    obtain ⟨b1, b2, b3, b4, _, b6, _, _⟩ := (hg.1 s).2 d hd
+    simp only [curOf, hwk] at b2 b3 b6
+    have hchg : d.charged = false := b4.mpr hwk
+    have hnostart : noStart cfg st = false := by simp [noStart, hcl, hl]
+    have hpos : d.pos = (st.srcs s).log.length := by
+      rcases hns s d hd with h1 | h1 | h1 | h1
+      · rw [hnostart] at h1; cases h1
+      · rw [hchg] at h1; cases h1
+      · rcases hD'.dis with h2 | h2 <;> omega
+      · rw [hD'.stale] at h1; cases h1
+    rw [b6, hD'.start, hpos]
+    simp only [sel, hf, if_true]
+    have hsl : slice (st.srcs s).log (st.srcs s).createdAt (st.srcs s).log.length =
+        (st.srcs s).log.drop (st.srcs s).createdAt := by
+      unfold slice
+      apply List.take_of_length_le; simp
+    rw [hsl]
+
 end Logrange.PipeLts
